@@ -96,6 +96,47 @@ CHECKS["C08"] = dict(
          "#:z0 because libvna's format defines the other order as an error",
     design_ref="DESIGN.md section 2, C08")
 
+CHECKS["C09"] = dict(
+    technique="runtime monitoring: structure-aware mutational fuzzing of all "
+              "loaders under ASan/UBSan/LSan with a per-operation watchdog; "
+              "offline oracle on the event log",
+    text="Seeds of every file kind (written by the library, hand-written "
+         "Touchstone 1/2 and YAML, the legacy V2 calibration file) are "
+         "mutated structurally; each input must be rejected with "
+         "-1/NULL, EBADMSG/ENOPROTOOPT/system errno and a single-line "
+         "message, leaving a usable destination and no leak, or load into a "
+         "self-consistent object that saves and re-loads to the same "
+         "content. Hangs are watchdog-detected.",
+    note="termination is restated as 'returns within 20 s on every generated "
+         "input'; memcheck (uninitialised reads) is not part of the quick run",
+    design_ref="DESIGN.md section 2, C09")
+CHECKS["C15"] = dict(
+    technique="runtime monitoring: reference-model monitor (pylib/datamodel.py, "
+              "written from vnadata(3)) compared after every operation of "
+              "bounded-exhaustive and random histories; ASan/UBSan",
+    text="Every 4-operation sequence over a 32-letter alphabet on dimensions "
+         "0..3 (thorough: all; quick: seeded 1/40 sample) plus 300-operation "
+         "random histories over all 11 types, indices from {-1,0,n-1,n,n+1}; "
+         "return value, errno class and full state digest must equal the "
+         "array model after every operation, including what resize re-exposes.",
+    note="trusted: transcription of vnadata(3) into the model; behaviours the "
+         "manual leaves open are accepted either way (listed in evidence)",
+    design_ref="DESIGN.md section 2, C15")
+CHECKS["C05"] = dict(
+    technique="runtime monitoring: sanitized vnadata_convert over the full "
+              "type-pair x shape x z0-mode table; offline oracle = netparams "
+              "state-basis reference + datamodel",
+    text="All 121 (from,to) pairs, 2x2 / NxN / vector shapes, four z0 modes "
+         "incl. per-frequency, in place and out of place, F in {0,1,3}: "
+         "accepted pairs must equal the independent reference per frequency "
+         "with that frequency's z0, chains must agree, rejected pairs must "
+         "fail with EINVAL and leave the destination unchanged, and a Zin "
+         "result must behave like a fresh 1 x ports object under later "
+         "resizes.",
+    note="trusted: numpy, netparams.py; ill-conditioned inputs skipped and "
+         "counted",
+    design_ref="DESIGN.md section 2, C05")
+
 NOT_YET = {}
 
 
